@@ -222,7 +222,12 @@ def e3_drive(run, acc, plan, shapes=None, label="E3"):
         rec = {"n": n, "traces": metas, "events_judged": v["events"], "stats": st, "void_from": voids}
         acc.e3.append(rec)
         traces = None
-        for (t, line, prop, what) in v["fails"]:
+        # the first failure of each (trace, property) is the one that counts (and bounds the work)
+        firsts = {}
+        for (t, line, prop, what) in sorted(v["fails"], key=lambda f: f[1]):
+            firsts.setdefault((t, prop), (t, line, prop, what))
+        rec["lens_failures"] = len(v["fails"])
+        for (t, line, prop, what) in firsts.values():
             if traces is None:
                 traces = vlib.split_traces(out)
             evs = [(ln, e) for (ln, e) in traces.get(t, []) if ln <= line]
@@ -874,7 +879,10 @@ def plan_c07(run, prop, tier):
         acc.traces += st["traces"]
         acc.e3.append({"n": n, "events_under_asan": v["events"], "histories": st["traces"], "histories_that_left_the_domain": len(v.get("voids", [])), "ops": st["ops"]})
         traces = None
-        for (t, line, prop_, what) in v["fails"]:
+        firsts = {}
+        for (t, line, prop_, what) in sorted(v["fails"], key=lambda f: f[1]):
+            firsts.setdefault((t, prop_), (t, line, prop_, what))
+        for (t, line, prop_, what) in firsts.values():
             if traces is None:
                 traces = vlib.split_traces(out)
             evs = [(ln, e) for (ln, e) in traces.get(t, []) if ln <= line]
